@@ -64,7 +64,8 @@ def shape (kind : DistortionKind) (x : α) : α :=
 def wet (kind : DistortionKind) (drive : α) (frame : Frame α) : Frame α :=
   let o := frame.scale drive
   let o : Frame α := ⟨shape kind o.left, shape kind o.right⟩
-  o.divs drive
+  -- a silent drive (amplitude exactly 0) leaves the signal undistorted instead of dividing 0 by 0
+  if feq drive (0.0 : α) then frame else o.divs drive
 
 /-- one frame of Distortion::process for given linear drive and clamped mix -/
 def tick (kind : DistortionKind) (drive mix : α) (frame : Frame α) : Frame α :=
